@@ -3,13 +3,20 @@
 // runner records the case it died on and resumes after it).
 //   flow gen SEED COUNT STREAM     STREAM: 0 general small, 1 magnitude (|v| <= 2^22, cell area < 2^31), 2 degenerate shapes,
 //                                  3 unit cells (rows of height 1-2, many 1x1 cells, bins filled to the brim, some movable cells of
-//                                  zero area) with a callback that observes or RESIZES a cell / rescales the net weights mid-run
+//                                  zero area) with a callback that observes or RESIZES a cell / rescales the net weights mid-run,
+//                                  6 circuits WITHOUT free capacity (every row covered by fixed obstructions: the "infeasible density" of
+//                                  the domain pushed to the end; path of the repair of finding F28 in DensityGrid::fromIspdCircuit)
+//                                  7 circuits whose detailed placer has NO free row segment after legalization (rows tiled exactly by movable
+//                                  macros, no standard cell; fixed macros over everything else) or exactly ONE free segment,
+//                                  8 rows holding 8..12 standard cells, reordering windows of 6..8 cells (case line ends with "rmax rrows")
 //   flow run < cases
 //   flow show EFFORT PSEED         prints the varied parameter set of a case
-// case: "FL <rows> <cells> <nets> stages effort seed netmodel [cbmode cbk cbcell cbw [pseed]]"   stages bits: 1 global, 2 legalize, 4 detailed
+// case: "FL <rows> <cells> <nets> stages effort seed netmodel [cbmode cbk cbcell cbw [pseed [rmax rrows]]]"   stages bits: 1 global, 2 legalize, 4 detailed
+//       rmax > 0: detailed.reorderingMaxNbCells = rmax, reorderingNbRows = rrows, nbPasses >= 1 (applied after the variation of pseed)
 //       pseed != 0: the parameters of the effort are perturbed by perturbParams(pseed) (kept only if ColoquinteParameters::check accepts them)
 //       cbmode 0 no callback, 1 observing callback, 2 at invocation cbk set the width of cell cbcell to cbw, 3 at invocation cbk double the net weights
 // result: "G:<RET|THROW msg> L:<..> D:<..> P:<def|var|rej>"  (stages not requested print '-'; P: default / varied / varied set rejected -> defaults)
+#include <climits>
 #include <cmath>
 #include "cgen.hpp"
 
@@ -103,6 +110,90 @@ static TCircuit genDegenerate(SplitMix &g) {
   return t;
 }
 
+// stream 6: no free capacity (finding F28): one macro over all rows, or one obstruction per row that leaves at most one unit at each end
+// (removed by the side margin). The density grid is built from an empty region list: zero capacity in every bin, all passes run on it
+static TCircuit genNoCapacity(SplitMix &g) {
+  GenOpts o; o.nets = true; o.maxCells = 12; TCircuit t = genCircuit(g, o); ensureDomain(t);
+  long long minX = LLONG_MAX, maxX = LLONG_MIN, minY = LLONG_MAX, maxY = LLONG_MIN;
+  for (auto &r : t.rows) { minX = std::min(minX, r[0]); maxX = std::max(maxX, r[1]); minY = std::min(minY, r[2]); maxY = std::max(maxY, r[3]); }
+  int kind = (int)g.uni(0, 2);
+  if (kind == 0) {
+    std::array<long long, 8> c{}; long long ex = g.uni(0, 3);
+    c[0] = minX - ex; c[1] = minY - ex; c[2] = maxX - minX + 2 * ex; c[3] = maxY - minY + 2 * ex; c[6] = 1; c[7] = 1;
+    t.cells.push_back(c);
+  } else {
+    for (auto &r : t.rows) {
+      std::array<long long, 8> c{}; long long l = kind == 2 ? g.uni(0, 1) : 0, rr = kind == 2 ? g.uni(0, 1) : 0;
+      c[0] = r[0] + l; c[1] = r[2]; c[2] = std::max(0LL, r[1] - r[0] - l - rr); c[3] = r[3] - r[2]; c[6] = 1; c[7] = 1;
+      t.cells.push_back(c);
+    }
+  }
+  return t;
+}
+
+// stream 7: after legalization the detailed placer is left with NO free row segment, or with exactly ONE.  The rows come in bands of
+// k = 2..3 rows of equal x-extent; every band is tiled exactly by macros k rows high.  kind 0: every macro movable (the Tetris pass has to
+// put them where they are: exact fit), no standard cell: every row segment is an obstacle for DetailedPlacement::fromIspdCircuit;
+// kind 1: some macros fixed, at least one movable; kind 2: as 0 / 1, but in ONE row one macro's footprint is left free (row-high fixed
+// blocks in the other rows of the band), with 0..2 standard cells that fit there: exactly one free segment; kind 3: one movable macro,
+// everything else under ONE fixed macro per band.  Every circuit has a movable cell of positive area (the domain of C07).
+static TCircuit genNoFreeRow(SplitMix &g) {
+  TCircuit t; int kind = (int)g.uni(0, 3);
+  long long rh = 2 * g.uni(1, 5); int k = (int)g.uni(2, 3), nbands = (int)g.uni(1, 3);
+  long long x0 = g.uni(-20, 20), y0 = g.uni(-20, 20), W = g.uni(4, 30);
+  for (int r = 0; r < k * nbands; ++r) t.rows.push_back({x0, x0 + W, y0 + r * rh, y0 + (r + 1) * rh, (long long)((r % 2) ? 5 : 0)});
+  int holeBand = (int)g.uni(0, nbands - 1), holeRow = (int)g.uni(0, k - 1); bool holeDone = kind != 2;
+  for (int b = 0; b < nbands; ++b) {
+    long long x = x0, yb = y0 + b * k * rh; bool first = true;
+    while (x < x0 + W) {
+      long long w = std::min(x0 + W - x, kind == 3 && !(b == 0 && first) ? W : g.uni(2, 8));
+      if (kind == 3 && b == 0 && first) w = std::min(w, W - 1 > 0 ? W - 1 : W);
+      bool fx = kind == 3 ? !(b == 0 && first) : (kind == 0 ? false : g.coin(45));
+      if (!holeDone && b == holeBand && (x + w >= x0 + W || g.coin(40))) {
+        // the footprint [x, x+w) x band: free in row holeRow, row-high fixed blocks elsewhere, 0..2 standard cells into the free piece
+        for (int r = 0; r < k; ++r) if (r != holeRow) t.cells.push_back({x, yb + r * rh, w, rh, 0, 0, 1, 1});
+        int ns = (int)g.uni(0, 2); long long left = w;
+        for (int s = 0; s < ns && left > 0; ++s) { long long ws = g.uni(1, std::max<long long>(1, left / 2)); left -= ws; t.cells.push_back({x + g.uni(-2, w), yb + holeRow * rh + g.uni(-1, 1), ws, rh, (long long)(((b * k + holeRow) % 2) ? 5 : 0), 0, 0, 1}); }
+        holeDone = true;
+      } else {
+        long long px = x, py = yb;
+        if (!fx && g.coin(35)) { px += g.uni(-3, 3); py += g.uni(-2, 2); }   // off its place: legalization has to bring it back (exact fit)
+        t.cells.push_back({px, py, w, k * rh, 0, 0, (long long)fx, 1});
+      }
+      x += w; first = false;
+    }
+  }
+  bool any = false; for (auto &c : t.cells) if (!c[6]) any = true;
+  if (!any) for (auto &c : t.cells) if (c[3] == k * rh) { c[6] = 0; break; }
+  int n = (int)t.cells.size(); int nn = (int)g.uni(0, 2 * n);
+  if (g.coin(30)) { t.cells.push_back({x0 + g.uni(-10, W + 10), y0 + g.uni(-10, k * nbands * rh + 10), 0, 0, 0, 0, 1, 0}); ++n; }   // a pad
+  for (int q = 0; q < nn; ++q) {
+    int d = (int)g.uni(1, 4); std::vector<std::array<long long, 3>> net;
+    for (int j = 0; j < d; ++j) { int cc = (int)g.uni(0, n - 1); net.push_back({cc, g.uni(0, t.cells[cc][2]), g.uni(0, t.cells[cc][3])}); }
+    t.nets.push_back(net); t.netw2.push_back((int)g.uni(1, 4));
+  }
+  return t;
+}
+
+// stream 8: rows that really hold 8..12 standard cells next to each other, run with reordering windows of 6..8 cells (trailing ints
+// "rmax rrows" of the case line: detailed.reorderingMaxNbCells / reorderingNbRows, nbPasses at least 1): up to 8! orderings per window
+static TCircuit genWideRows(SplitMix &g) {
+  TCircuit t; int nrows = (int)g.uni(1, 3); long long rh = 2 * g.uni(1, 3), x0 = g.uni(-15, 15), y0 = g.uni(-15, 15), W = 0;
+  std::vector<std::vector<long long>> ws(nrows);
+  for (int r = 0; r < nrows; ++r) { int m = r == 0 ? (int)g.uni(8, 12) : (int)g.uni(1, 4); long long tot = 0; for (int i = 0; i < m; ++i) { ws[r].push_back(g.uni(1, 4)); tot += ws[r].back() + (g.coin(40) ? g.uni(1, 2) : 0); } W = std::max(W, tot + g.uni(0, 4)); }
+  for (int r = 0; r < nrows; ++r) {
+    t.rows.push_back({x0, x0 + W, y0 + r * rh, y0 + (r + 1) * rh, (long long)((r % 2) ? 5 : 0)});
+    long long x = x0; for (long long w : ws[r]) { t.cells.push_back({x + g.uni(0, 1), y0 + r * rh, w, rh, (long long)((r % 2) ? 5 : 0), 0, 0, 1}); x += w; }
+  }
+  int n = (int)t.cells.size(); int nn = (int)g.uni(n, 2 * n + 2);
+  for (int q = 0; q < nn; ++q) {
+    int d = (int)g.uni(2, 4); std::vector<std::array<long long, 3>> net;
+    for (int j = 0; j < d; ++j) { int cc = (int)g.uni(0, n - 1); net.push_back({cc, g.uni(0, t.cells[cc][2]), g.uni(0, t.cells[cc][3])}); }
+    t.nets.push_back(net); t.netw2.push_back((int)g.uni(1, 4));
+  }
+  return t;
+}
+
 // Parameter variation (all streams): from the seed carried in the case line, perturb the integer / enum knobs and the moderate float
 // knobs of every parameter structure; each knob keeps its effort default with probability ~1/2, so that the sets mix defaults and
 // non-defaults.  The set is kept only when ColoquinteParameters::check() ACCEPTS it (the caller falls back to the defaults otherwise).
@@ -178,8 +269,14 @@ int main(int argc, char **argv) {
       TCircuit t;
       if (stream == 1) t = genMagnitude(g); else if (stream == 2) t = genDegenerate(g);
       else if (stream == 3) { t = genUnit(g); ensureDomain(t); }
+      else if (stream == 6) t = genNoCapacity(g);
+      else if (stream == 7) t = genNoFreeRow(g);
+      else if (stream == 8) t = genWideRows(g);
       else { GenOpts o; o.nets = true; o.maxCells = 14; t = genCircuit(g, o); ensureDomain(t); }
       int stages = g.coin(25) ? 7 : (g.coin(50) ? 2 : (g.coin(60) ? 6 : 1));
+      if (stream == 7) stages = g.coin(45) ? 4 : (g.coin(60) ? 6 : 7);   // placeDetailed alone (it legalizes first), legalize + detailed, whole flow
+      if (stream == 8) stages = g.coin(40) ? 4 : (g.coin(60) ? 6 : 7);
+      if (stream == 6) stages = g.coin(65) ? 1 : 7;   // global placement is where the empty grid is built; legalization has no room and throws
       if (stream == 3) {
         stages = g.coin(70) ? 1 : 7;
         int cbmode = g.coin(35) ? 0 : (g.coin(30) ? 1 : (g.coin(75) ? 2 : 3)); int n = (int)t.cells.size();
@@ -193,6 +290,8 @@ int main(int argc, char **argv) {
       }
       int e0 = (int)g.uni(1, 4), s0 = (int)g.uni(0, 1000), m0 = (int)g.uni(0, 3);
       long long ps0 = g.coin(60) ? g.uni(1, 2000000000) : 0;      // parameter-variation seed; 0 = the library defaults of the effort
+      if (stream == 7 && g.coin(50)) ps0 = 0;     // default parameters: nbPasses >= 1, every pass builds its RowNeighbourhood
+      if (stream == 8) { printf("FL %s %s %d %d %d %d 0 0 0 0 %lld %d %d\n", showRowsCells(t).c_str(), showNets(t).c_str(), stages, e0, s0, m0, ps0, (int)g.uni(6, 8), (int)(g.coin(70) ? 1 : 2)); continue; }
       printf("FL %s %s %d %d %d %d 0 0 0 0 %lld\n", showRowsCells(t).c_str(), showNets(t).c_str(), stages, e0, s0, m0, ps0);
     }
     return 0;
@@ -213,6 +312,7 @@ int main(int argc, char **argv) {
     int stages = (int)r.nx(), effort = (int)r.nx(), seed = (int)r.nx(), nm = (int)r.nx();
     int cbmode = (int)r.nx(), cbk = (int)r.nx(), cbcell = (int)r.nx(); long long cbw = r.nx();
     long long pseed = r.nx();                                   // optional trailing int: 0 / absent = defaults (old case lines keep their meaning)
+    int rmax = (int)r.nx(), rrows = (int)r.nx();                 // optional: reordering window override (stream 8); 0 / absent = none
     std::string G = "-", L = "-", D = "-", P = "def";
     try {
       Circuit c = buildCircuit(t);
@@ -226,6 +326,7 @@ int main(int argc, char **argv) {
         bool ok = true; try { q.check(); } catch (std::exception &) { ok = false; }
         if (ok) { p = q; P = "var"; } else P = "rej";          // rejected sets are C19's business: run the defaults
       }
+      if (rmax > 0) { p.detailed.reorderingMaxNbCells = rmax; p.detailed.reorderingNbRows = std::max(1, rrows); p.detailed.nbPasses = std::max(1, p.detailed.nbPasses); p.check(); }
       int inv = 0;
       std::optional<PlacementCallback> cb;
       if (cbmode != 0) cb = [&](PlacementStep) {
